@@ -82,7 +82,16 @@ def shapes(tier, seed):
             for lhs in (False, True):
                 out.append({"e": lab_e + " /v", "x": lab + (" (fixed lhs)" if lhs else ""), "e_node": e_node, "x_node": None, "pj": lab,
                             "cols": COLS_V, "params": pe.params, "cons": pe.cons, "n": 3, "fixed_lhs": lhs})
-    return out
+    # the same pairs over a target whose declared row bound is finite (max_rows = number of slots): commutation rules may look at it
+    bounded = []
+    for sh in out:
+        if sh.get("cols") or sh.get("pj"):
+            continue
+        b = dict(sh)
+        b["decl_max"] = True
+        b["e"] = sh["e"] + " /max_rows=n"
+        bounded.append(b)
+    return out + bounded
 
 
 def _partial_join(env, shape, cur):
@@ -162,7 +171,7 @@ def run_shape(shape, tier):
 
         env = Env(symbolic=True)
         tab = common.sym_table(ctx, "X", xcols, n, ordered=True, perm=True)
-        add_abstract_leaf(env, "X", xcols, "it1", tab)
+        add_abstract_leaf(env, "X", xcols, "it1", tab, max_rows=(n if shape.get("decl_max") else None))
         if shape.get("pj"):
             ycols = PJ[shape["pj"]][0]
             ytab = common.sym_table(ctx, "Y", ycols, 2, ordered=True)
@@ -243,7 +252,7 @@ def run_shape(shape, tier):
 def concrete_check(shape, rows, yrows, bind):
     env = Env()
     xcols = tuple(shape.get("cols") or COLS)
-    add_abstract_leaf(env, "X", xcols, "it1", None)
+    add_abstract_leaf(env, "X", xcols, "it1", None, max_rows=(shape["n"] if shape.get("decl_max") else None))
     if shape.get("pj"):
         add_abstract_leaf(env, "Y", PJ[shape["pj"]][0], "it1", None)
     env.bind = dict(bind)
